@@ -178,4 +178,61 @@ theorem render_nested_code_order :
             "return {key: self._render_nested(item, rendered, virtual, sensitive_mask) for item, (key, rendered) in zip(held.values(), basic.items())}",
             "end", "return basic"] := by decide +kernel
 
+/-- **/repo's `Config.to_tree` has the order the mask model follows** (generated reading, regenerated on every run): per field —
+    a held configuration is rendered with the caller's options; a non-empty LIST of configurations is rendered by the library
+    itself only when a mask or the virtual flag has to be passed on AND the list field is not itself sensitive under a mask (F8,
+    F60, F73: otherwise the field's own `to_basic` renders it, so a list field subclass keeps its on-disk form); a sensitive field
+    under a mask is replaced by the mask (empty values stay `None`, a one-character mask is repeated to the length of `str(value)`);
+    every other field is rendered by its `to_basic` (errors wrapped) and, under options, walked by `_render_nested`. -/
+theorem to_tree_code_order :
+    Generated.containerShape.lookup "Config.to_tree" =
+      some ["tree = {}",
+            "fields: Dict[str, BaseField] = dict(self._schema._fields)",
+            "fields.update(self._fields)",
+            "loop[fields.items()]",
+            "is_virtual = virtual and isinstance(field, VirtualFieldMixin)",
+            "if[key not in self._data and (not is_virtual)]",
+            "continue",
+            "end",
+            "if[isinstance(field, InstanceMethodFieldMixin)]",
+            "continue",
+            "end",
+            "field_value = field.__getval__(self)",
+            "value: Any = None",
+            "if[isinstance(field_value, Config)]",
+            "value = field_value.to_tree(virtual=virtual, sensitive_mask=sensitive_mask)",
+            "else",
+            "if[(virtual or sensitive_mask is not None) and isinstance(field_value, list) and field_value and all((isinstance(item, Config) for item in field_value)) and (not (isinstance(field, Field) and field.sensitive and (sensitive_mask is not None)))]",
+            "value = [item.to_tree(virtual=virtual, sensitive_mask=sensitive_mask) for item in field_value]",
+            "else",
+            "if[isinstance(field, Field) and field.sensitive and (sensitive_mask is not None)]",
+            "if[not field_value]",
+            "pass",
+            "else",
+            "if[len(sensitive_mask) == 1]",
+            "value = sensitive_mask * len(str(field_value))",
+            "else",
+            "value = sensitive_mask",
+            "end",
+            "end",
+            "else",
+            "if[isinstance(field, Field)]",
+            "try",
+            "value = field.to_basic(self, field_value)",
+            "except:ValidationError",
+            "raise",
+            "except:Exception",
+            "raise:ValidationError",
+            "end",
+            "if[virtual or sensitive_mask is not None]",
+            "value = self._render_nested(field_value, value, virtual, sensitive_mask)",
+            "end",
+            "end",
+            "end",
+            "end",
+            "end",
+            "tree[key] = value",
+            "end",
+            "return tree"] := by decide +kernel
+
 end Cinco.C10b
